@@ -65,6 +65,8 @@ type State struct {
 	trace   []string
 	written map[string]bool // heaps written so far (for frame reporting)
 	ghost   map[string]string
+	boolDef map[string]string // definitions of Bool constants (for cheap branch pruning)
+	factSet map[string]bool
 }
 
 func (st *State) fork() *State {
@@ -79,6 +81,14 @@ func (st *State) fork() *State {
 		trace:   append([]string(nil), st.trace...),
 		written: map[string]bool{},
 		ghost:   map[string]string{},
+		boolDef: map[string]string{},
+		factSet: map[string]bool{},
+	}
+	for k, v := range st.boolDef {
+		n.boolDef[k] = v
+	}
+	for k, v := range st.factSet {
+		n.factSet[k] = v
 	}
 	for k, v := range st.declSet {
 		n.declSet[k] = v
@@ -111,6 +121,57 @@ func (st *State) assume(f string) {
 		return
 	}
 	st.facts = append(st.facts, f)
+	if st.factSet != nil {
+		st.noteFact(f, 0)
+	}
+}
+
+// noteFact records atomic facts (conjuncts, resolved through Bool definitions) for branch pruning.
+func (st *State) noteFact(f string, depth int) {
+	if depth > 6 {
+		return
+	}
+	st.factSet[f] = true
+	if d, ok := st.boolDef[f]; ok {
+		st.noteFact(d, depth+1)
+	}
+	if strings.HasPrefix(f, "(and ") {
+		for _, p := range splitSexp(f)[1:] {
+			st.noteFact(p, depth+1)
+		}
+	}
+	if strings.HasPrefix(f, "(not ") {
+		inner := f[5 : len(f)-1]
+		if d, ok := st.boolDef[inner]; ok {
+			st.noteFact(not(d), depth+1)
+		}
+		if strings.HasPrefix(inner, "(or ") {
+			for _, p := range splitSexp(inner)[1:] {
+				st.noteFact(not(p), depth+1)
+			}
+		}
+	}
+}
+
+// known reports whether a condition is syntactically implied ("true"), refuted ("false") or unknown ("").
+func (st *State) known(c string) string {
+	def := c
+	for i := 0; i < 4; i++ {
+		if d, ok := st.boolDef[def]; ok {
+			def = d
+		} else {
+			break
+		}
+	}
+	for _, t := range []string{c, def} {
+		if st.factSet[t] {
+			return "true"
+		}
+		if st.factSet[not(t)] {
+			return "false"
+		}
+	}
+	return ""
 }
 
 func heapInit(key string) string { return key + "_0" }
